@@ -554,6 +554,7 @@ class _OverlapAudioReader(_FixedSizeAudioReader):
         block = self._audio_source.read(self._block_size)
         if block is None:
             yield None
+            return
 
         _hop_size_bytes = (
             self._hop_size * self._audio_source.sw * self._audio_source.ch
